@@ -25,6 +25,9 @@ pub struct HeapView {
     pub freed: Vec<bool>,
     pub free: Vec<usize>,
     pub pending_free: Vec<usize>,
+    /// How often each slot has been (re)allocated; a slot whose generation changed between two
+    /// observations was reclaimed and reused in between.
+    pub generations: Vec<u64>,
     /// Flattened bytes of every slot (empty for freed slots).
     pub bytes: Vec<Vec<u8>>,
     /// Slots pinned by the constant-binary cache.
